@@ -38,6 +38,8 @@ def build_b0(spec):
 def strategy(tier, unit):
     return st.fixed_dictionaries({"rot": S.rot_specs(1), "cell": S.cells(), "hkl": S.hkls(20, big=300),
                                   "mod": st.sampled_from(["tools", "laue"]), "b0": _b0(),
+                                  # overall magnitude of the general UB matrix (the factorisation is scale-free): 1 in most cases, else 1e-12 .. 1e12
+                                  "b0_scale": st.one_of(st.just(1.0), st.just(1.0), st.just(1.0), S.logfl(1e-12, 1e12)),
                                   "as": st.sampled_from(["array", "array", "nested-list", "int-if-integral"]),
                                   "prev": st.one_of(st.none(), st.fixed_dictionaries({"rot": S.rot_specs(1), "cell": st.one_of(S.cells(), S.logfl(1e-9, 1e-3)), "as_array": st.booleans()}))})
 
@@ -52,7 +54,7 @@ def check(case, ctx):
     h = np.array(case["hkl"], float)
     G, Gs, V = O.metric(cell)
     axis = S.rot_is_axis(U0)
-    B0 = build_b0(case["b0"])
+    B0 = build_b0(case["b0"]) * case.get("b0_scale", 1.0)
     cond = np.linalg.cond(B0)
     if cond >= 1e6:
         ctx.event("b0-cond>=1e6 (QR part skipped)")
